@@ -3,6 +3,8 @@
 package zzverif
 
 import (
+	"github.com/jsightapi/jsight-schema-go-library/formats/json"
+	"github.com/jsightapi/jsight-schema-go-library/notations/jschema"
 	"github.com/jsightapi/jsight-schema-go-library/notations/regex"
 	"github.com/jsightapi/jsight-schema-go-library/rules/enum"
 	"github.com/jsightapi/jsight-schema-go-library/zzverif/v"
@@ -103,3 +105,75 @@ func ZZC11Rules() {
 }
 
 func init() { ZZHarnesses["ZZC11Rules"] = ZZC11Rules }
+
+// ZZC11Shared: user-type, enum-rule objects are shared between schemas (one registry, many
+// schemas). What one schema does - including a failing Check - must not change what another
+// schema using the same objects returns; compared with the same schemas built from fresh objects.
+func ZZC11Shared() {
+	which := v.Choose(0, 1)
+	first := v.Choose(0, 2) // what the other schema does first: nothing, Check, Check+Example
+	run := func(shared bool) string {
+		out := ""
+		if which == 0 {
+			// @T inherits from @B; the first schema knows @T only (its Check fails), the second knows both
+			tText := "{ // {allOf: \"@B\"}\n  \"t\": 1\n}"
+			t := jschema.New("@T", tText)
+			b := jschema.New("@B", `{"b": 2}`)
+			s1 := jschema.New("s1", "{\n  \"x\": @T\n}")
+			_ = s1.AddType("@T", t)
+			if shared && first > 0 {
+				out += "s1:" + c11Sig(s1.Check()) + ";"
+				if first > 1 {
+					_, e := s1.Example()
+					out += c11Sig(e) + ";"
+				}
+			} else if first > 0 {
+				out += "s1:" + c11Sig(s1.Check()) + ";"
+				if first > 1 {
+					_, e := s1.Example()
+					out += c11Sig(e) + ";"
+				}
+				t = jschema.New("@T", tText) // fresh objects for the second schema
+				b = jschema.New("@B", `{"b": 2}`)
+			}
+			s2 := jschema.New("s2", "{\n  \"x\": @T\n}")
+			_ = s2.AddType("@T", t)
+			_ = s2.AddType("@B", b)
+			out += "check:" + c11Sig(s2.Check())
+			out += ";full:" + c11Sig(s2.Validate(json.New("d", `{"x":{"t":1,"b":2}}`)))
+			out += ";part:" + c11Sig(s2.Validate(json.New("d", `{"x":{"t":1}}`)))
+			ex, e := s2.Example()
+			out += ";ex:" + string(ex) + ":" + c11Sig(e)
+			return out
+		}
+		// one enum rule object used by two schemas; its text has a comment on a line of its own
+		eText := "[\n  \"a\",\n  // a comment line\n  \"b\",\n  \"c\"\n]"
+		e := enum.New("@e", eText)
+		s1 := jschema.New("s1", `"a" // {enum: @e}`)
+		_ = s1.AddRule("@e", e)
+		if first > 0 {
+			out += "s1:" + c11Sig(s1.Check()) + ";"
+		}
+		if !shared {
+			e = enum.New("@e", eText)
+		}
+		vals, verr := e.Values()
+		out += "values:" + c11Sig(verr)
+		for _, x := range vals {
+			out += "," + string(x.Value)
+		}
+		s2 := jschema.New("s2", `"b" // {enum: @e}`)
+		_ = s2.AddRule("@e", e)
+		out += ";check:" + c11Sig(s2.Check())
+		out += ";c:" + c11Sig(s2.Validate(json.New("d", `"c"`)))
+		out += ";z:" + c11Sig(s2.Validate(json.New("d", `"z"`)))
+		return out
+	}
+	a, b := run(true), run(false)
+	v.Observe("shared", a)
+	v.Observe("fresh", b)
+	v.Assert(a == b, "C11/result-depends-on-another-schema-sharing-the-object")
+	v.Reach("C11/shared")
+}
+
+func init() { ZZHarnesses["ZZC11Shared"] = ZZC11Shared }
